@@ -524,7 +524,21 @@ func (ex *Exec) indexAddr(st *State, x *ssa.IndexAddr) Value {
 		return r
 	case *Term:
 		if b.S == SBytes {
-			panic(unsupported("address of byte-slice element (byte-level mutation) at " + ex.pos(x.Pos())))
+			// read-only view of the bytes of a byte-string term
+			ex.panicIf(st, Or(Lt(idx, IntLit(0)), Ge(idx, BLen(b))), "index-out-of-range", x.Pos())
+			key := fmt.Sprintf("bytesview|%d", b.id)
+			var o *Obj
+			if v, ok := ex.matCache[key]; ok {
+				o = v.(*PtrVal).Alts[0].O
+			} else {
+				o = ex.newObj("bytes:"+b.String(), OSymArr, x.Type().Underlying().(*types.Pointer).Elem())
+				o.owner = 0
+				o.readonly = true
+				arr := App("bytes.at", ArraySort(SInt), b)
+				o.init = func() Value { return arr }
+				ex.matCache[key] = &PtrVal{Alts: []PtrAlt{{C: TTrue, O: o}}}
+			}
+			return &PtrVal{Alts: []PtrAlt{{C: TTrue, O: o, Path: []PathElem{{Index: idx}}}}}
 		}
 	}
 	panic(unsupported(fmt.Sprintf("IndexAddr on %T", base)))
@@ -624,6 +638,25 @@ func (ex *Exec) sliceOp(st *State, x *ssa.Slice) Value {
 		n := IntLit(arrT.Len())
 		if hi == nil {
 			hi = n
+		}
+		if classify(x.Type()) == KBytes {
+			// byte arrays (varargs, make([]byte, n)) become byte-string terms; aliasing with the array is dropped
+			lov, ok1 := lo.IntVal()
+			hiv, ok2 := hi.IntVal()
+			if !ok1 || !ok2 || len(b.Alts) != 1 || b.Alts[0].O == nil {
+				panic(unsupported("slice of byte array with symbolic bounds"))
+			}
+			av := ex.navigate(st, ex.heapGet(st, b.Alts[0].O), b.Alts[0].Path, b.Alts[0].O).(*ArrVal)
+			r := BytesLit("")
+			for i := lov; i < hiv; i++ {
+				c := av.E[i].(*Term)
+				if cv, ok := c.IntVal(); ok && cv < 128 {
+					r = BCat(r, BytesLit(string(rune(cv))))
+				} else {
+					r = BCat(r, App("byte1", SBytes, c))
+				}
+			}
+			return r
 		}
 		r := &SliceVal{Elem: arrT.Elem()}
 		for _, al := range b.Alts {
